@@ -42,5 +42,6 @@ extern const hx_op ops_c04[];
 extern const hx_op ops_c09[];
 extern const hx_op ops_c01[];
 extern const hx_op ops_c18[];
+extern const hx_op ops_c17[];
 int hx_aead(const char *op, int argc, char **argv, FILE *o);  /* 1 = not an aead op */
 #endif
